@@ -1,10 +1,31 @@
 /-
-  Per-program evaluation of the DECIDABLE content of the hypotheses of `C01_composition` / `C12_chain`
-  (the links that are stated for all programs but not proved for all programs): used by the checks
-  C01 and C12 on every accepted program of a run (request `links <file.sc>` of sccmodel).
-  One line: `OK [validMain|noValidMain] [sequenced]` | `REJECTED ..` | `FAIL <names of failing checks>`.
+  Per-program evaluation of the DECIDABLE hypotheses of `C01_composition` / `C01_middle` / `C12_of_linkChecks`
+  and of the decidable content of the links of `C12_chain`: used by the checks C01 and C12 on every accepted
+  program of a run (request `links <file.sc>` of sccmodel).
+  One line: `OK [validMain|noValidMain] [sequenced] [labelUnsafe] [frag] [overCapacity]` | `REJECTED ..` | `FAIL <names of failing checks>`.
+
+  * the hypotheses proper (the theorems take them as `… = true`):
+      `noMainCall`   `Scc.Fun.noMainCall p'`              (only reported for programs with a valid `main`)
+      `linkChecks`   `C01_linkChecks p'` (= `C12_linkChecks p'`): `stages` succeeds and
+                     `input2`, `wtFsScoped3`, `wtAx4`, `wfNonLinear4` hold (also reported one by one)
+      `C01_labelSafe p'` is reported as the TAG `labelUnsafe` on an `OK` line, not as a failure: it is a
+                     hypothesis of `C01_statement` / `C01_link_x86` only (label-unsafe names are the known
+                     finding of C14, outside C01's and C12's typing links); `C12_*` does not use it.
+      `C01_fragChecks p'` is reported as the TAG `frag`: the program is in the fragment of
+                     `C01_composition_frag` (fun2core's semantics is a theorem there; outside it the
+                     hypothesis `C01_link_fun2core_sem` is used).
+      `C01_capacity p'` is reported as the TAG `overCapacity` when it FAILS: the static capacity condition of
+                     Theorem A (`C06Generic.ProgWithinCapacity` of S5: fewer than 500000 live variables in
+                     every reachable context), a hypothesis of part (3) of `C01_middle` and of the lemmas through
+                     the abstract backend machine only.
+  * facts that the theorems DERIVE from `linkChecks` (re-evaluated here as a cross-check of the models against
+    the theorems; a failure of one of them with `linkChecks` true would contradict `C12_facts_of_checks`):
+      `typesDisjoint2` (not derived; conclusion of `C12_link_fun2core`), `focusPanicFree2`, `uniqueBinders3`,
+      `uniqueIds3`, `idsBounded3`, `mainIntParams3` (valid `main` only), `noEnvAnn4`, `linTyped5`
+  * the decidable content of `C12_link_codegen` at hooks = true, counter 0: `x86`, `a64`, `rv`.
 -/
 import Scc.Props.C12
+import Scc.Props.C01Checks
 open Scc Scc.Pipeline Scc.Props
 
 namespace Scc.Pipeline.Links
@@ -20,15 +41,18 @@ def linksLine (src : String) : String :=
     | .panic s => "FAIL checker-panic " ++ s
     | .ok p' =>
       let pre := (if Fun.Check.programNamesOk p then [] else ["programNamesOk"]) ++
-                 (if Fun.Typing.annotatedProgram p' then [] else ["annotated"])
+                 (if Fun.Typing.annotatedProgram p' then [] else ["annotated"]) ++
+                 (if !validMain p' || Fun.noMainCall p' then [] else ["noMainCall"])
       match stages p' with
       | .error e => "FAIL " ++ " ".intercalate (pre ++ ["stages:" ++ e])
       | .ok st =>
         let cs : List (String × Bool) := [
+          ("linkChecks", C01_linkChecks p'),
           ("input2", C12_inputB st.s2), ("typesDisjoint2", typesDisjoint st.s2),
           ("focusPanicFree2", st.s2.focusPanicFree),
           ("wtFsScoped3", Core2AxCut.wtFsScopedCheck st.s3), ("uniqueBinders3", Core.uniqueBindersCheck st.s3),
-          ("uniqueIds3", Core2AxCut.uniqueIdsCheck st.s3),
+          ("uniqueIds3", Core2AxCut.uniqueIdsCheck st.s3), ("idsBounded3", Core2AxCut.idsBoundedCheck st.s3),
+          ("mainIntParams3", !validMain p' || Core2AxCut.mainIntParams st.s3),
           ("wtAx4", C12_isOk (AxCut.Named.wtAxCheck st.s4)), ("wfNonLinear4", AxCut.wfNonLinearCheck st.s4),
           ("noEnvAnn4", AxCut.noEnvAnnProg st.s4), ("linTyped5", C12_isOk (AxCut.linTypedCheck st.s5)),
           ("x86", !validMain p' || C12_okOrCapacityB (backEndX86 true 0 st.s5)),
@@ -37,7 +61,10 @@ def linksLine (src : String) : String :=
         let bad := pre ++ (cs.filter (fun c => !c.2)).map (·.1)
         if bad.isEmpty then
           "OK" ++ (if validMain p' then " validMain" else " noValidMain") ++
-            (if Fun.Sequenced p' then " sequenced" else "")
+            (if Fun.Sequenced p' then " sequenced" else "") ++
+            (if C01_labelSafe p' then "" else " labelUnsafe") ++
+            (if C01_fragChecks p' then " frag" else "") ++
+            (if C01_capacity p' then "" else " overCapacity")
         else "FAIL " ++ " ".intercalate bad
 
 
